@@ -16,11 +16,12 @@ Oracle (independent RFC 3986 splitter + authority parser written here):
 import ipaddress
 import re
 
-from hypothesis import strategies as st
+import runner
+from dmgen import pick, small, text
 
 PID = "C33"
 LEVEL = "exploration"
-TECHNIQUE = "Hypothesis URL-from-components + edit sequences; independent RFC 3986 splitter / authority parser as oracle"
+TECHNIQUE = "seeded-PRNG URL-from-components + edit sequences; independent RFC 3986 splitter / authority parser as oracle"
 RULE = ("URLs built from components (4 scheme spellings x 4 host kinds x 6 port forms x path/params/query/fragment) "
         "followed by <=4 further url/host/port/scheme edits on h1/h2 requests with/without Host header and authority; "
         "non-trivial = IDN or IP-literal host, explicit non-default port, or >=2 edits; distinct by full case")
@@ -28,15 +29,19 @@ ASSUMPTIONS = ["valid URL = RFC 3986 ASCII syntax, http/https, no userinfo, port
                "checked for idempotence)", "Python's idna codec and ipaddress module normalise hosts for comparison"]
 LEVEL_TEXT = "randomised search over URL components and edit sequences against an independent URL/authority parser"
 LEVEL_NOTE = "trusts stdlib idna/ipaddress for host equivalence"
-QUICK_N, THOROUGH_N = 50_000, 5_000_000
+QUICK_N, THOROUGH_N = 300_000, 20_000_000
 
-# ------------------------------------------------------------------ generator
+# ------------------------------------------------------------------ generator (seeded PRNG, see lib/dmgen.py)
 _alnum = "abcdefghijklmnopqrstuvwxyzABCDEFGHIJKLMNOPQRSTUVWXYZ0123456789"
-_label = st.one_of(
-    st.sampled_from(["example", "com", "a", "www", "EXAMPLE", "x-y", "a_b", "localhost", "0", "a" * 63, "xn--nxasmq6b"]),
-    st.text(alphabet=_alnum + "-_", min_size=1, max_size=10).map(lambda s: "a" + s + "0"),
-)
-_uni_alpha = st.sampled_from("äöüéñßçøåλπωδжщяיםあア例漢字测试")
+_LABELS = ["example", "com", "a", "www", "EXAMPLE", "x-y", "a_b", "localhost", "0", "a" * 63, "xn--nxasmq6b"]
+_UNI_ALPHA = "äöüéñßçøåλπωδжщяיםあア例漢字测试"
+_UNI_LABELS = ["bücher", "例え", "テスト", "ελληνικά", "россия", "ÄÖÜ", "a-ü-b"]
+_IPV4 = ["127.0.0.1", "0.0.0.0", "255.255.255.255", "10.0.0.1"]
+_IPV6 = ["::1", "::", "2001:db8::1", "2001:DB8::A", "::ffff:1.2.3.4", "fe80::1", "1:2:3:4:5:6:7:8"]
+_pchar = "abcXYZ019-._~!$&'()*+,;=:@"
+_SEGS = ["", "a", "index.html", "%20", "%2F", "%C3%A4", "%e4", "..", ".", "a;b=c", "*", "~u", "a:b@c", "%00"]
+_QS = ["a=b", "a=b&c=d", "x", "a=%26&b=%3D", "q=a+b", "a=b;c=d", "/?/", "%C3%A4=%FF", "a==b&&"]
+_SCHEMES = ["http", "https", "http", "https", "HTTP", "Https"]
 
 
 def _alabel(u):
@@ -46,86 +51,108 @@ def _alabel(u):
         return "xn--bcher-kva"
 
 
-_idn_label = st.one_of(
-    st.sampled_from(["bücher", "例え", "テスト", "ελληνικά", "россия", "ÄÖÜ", "a-ü-b"]),
-    st.text(alphabet=_uni_alpha, min_size=1, max_size=6),
-).map(_alabel)
-_name = st.tuples(st.lists(_label, min_size=1, max_size=4), st.booleans()).map(
-    lambda t: ".".join(t[0]) + ("." if t[1] and len(t[0]) > 1 else ""))
-_idn = st.tuples(st.lists(st.one_of(_idn_label, _idn_label, _label), min_size=1, max_size=3), _idn_label, st.integers(0, 3)).map(
-    lambda t: ".".join(t[0][: t[2]] + [t[1]] + t[0][t[2]:]))
-_ipv4 = st.one_of(st.sampled_from(["127.0.0.1", "0.0.0.0", "255.255.255.255", "10.0.0.1"]),
-                  st.integers(0, 2 ** 32 - 1).map(lambda i: str(ipaddress.IPv4Address(i))))
-_ipv6 = st.one_of(
-    st.sampled_from(["::1", "::", "2001:db8::1", "2001:DB8::A", "::ffff:1.2.3.4", "fe80::1", "1:2:3:4:5:6:7:8"]),
-    st.integers(0, 2 ** 128 - 1).map(lambda i: str(ipaddress.IPv6Address(i))),
-    st.integers(0, 2 ** 128 - 1).map(lambda i: ipaddress.IPv6Address(i).exploded),
-)
-# (kind, text as it appears inside a URL authority)
-_host = st.one_of(
-    _name.map(lambda h: ["name", h]), _name.map(lambda h: ["name", h]),
-    _idn.map(lambda h: ["idn", h]),
-    _ipv4.map(lambda h: ["ipv4", h]),
-    _ipv6.map(lambda h: ["ipv6", h]),
-)
-_port = st.one_of(st.none(), st.none(), st.sampled_from([80, 443, 8080, 1, 65535, 0]), st.integers(1, 65535))
-_portform = st.tuples(_port, st.integers(0, 2)).map(lambda t: None if t[0] is None else "0" * (t[1] // 2) + str(t[0]))
-
-_pchar = "abcXYZ019-._~!$&'()*+,;=:@"
-_seg = st.one_of(
-    st.sampled_from(["", "a", "index.html", "%20", "%2F", "%C3%A4", "%e4", "..", ".", "a;b=c", "*", "~u", "a:b@c", "%00"]),
-    st.text(alphabet=_pchar, max_size=8),
-)
-_path = st.one_of(st.just(""), st.lists(_seg, min_size=1, max_size=4).map(lambda l: "/" + "/".join(l)))
-_q = st.one_of(
-    st.sampled_from(["a=b", "a=b&c=d", "x", "a=%26&b=%3D", "q=a+b", "a=b;c=d", "/?/", "%C3%A4=%FF", "a==b&&"]),
-    st.text(alphabet=_pchar + "/?", max_size=10),
-)
-_query = st.one_of(st.none(), st.none(), _q)
-_frag = st.one_of(st.none(), st.none(), st.none(), st.text(alphabet=_pchar + "/?", max_size=5))
-_scheme = st.sampled_from(["http", "https", "http", "https", "HTTP", "Https"])
+def _g_label(rnd):
+    return pick(rnd, _LABELS) if rnd.random() < 0.5 else "a" + text(rnd, _alnum + "-_", 1, 10) + "0"
 
 
-def _mkurl(t):
-    scheme, host, port, path, query, frag = t
-    h = "[%s]" % host[1] if host[0] == "ipv6" else host[1]
-    u = "%s://%s" % (scheme, h)
+def _g_idn_label(rnd):
+    return _alabel(pick(rnd, _UNI_LABELS) if rnd.random() < 0.5 else text(rnd, _UNI_ALPHA, 1, 6))
+
+
+def _g_name(rnd):
+    labels = [_g_label(rnd) for _ in range(rnd.randint(1, 4))]
+    return ".".join(labels) + ("." if rnd.random() < 0.25 and len(labels) > 1 else "")
+
+
+def _g_idn(rnd):
+    labels = [(_g_idn_label(rnd) if rnd.random() < 0.66 else _g_label(rnd)) for _ in range(rnd.randint(1, 3))]
+    labels.insert(rnd.randint(0, len(labels)), _g_idn_label(rnd))
+    return ".".join(labels)
+
+
+def _g_ipv4(rnd):
+    return pick(rnd, _IPV4) if rnd.random() < 0.4 else str(ipaddress.IPv4Address(rnd.getrandbits(32)))
+
+
+def _g_ipv6(rnd):
+    r = rnd.random()
+    if r < 0.4:
+        return pick(rnd, _IPV6)
+    a = ipaddress.IPv6Address(rnd.getrandbits(128) & rnd.getrandbits(128))   # AND: runs of zero groups are common
+    return str(a) if r < 0.75 else a.exploded
+
+
+def _g_host(rnd):
+    r = rnd.random()
+    if r < 0.35:
+        return ["name", _g_name(rnd)]
+    if r < 0.6:
+        return ["idn", _g_idn(rnd)]
+    if r < 0.8:
+        return ["ipv4", _g_ipv4(rnd)]
+    return ["ipv6", _g_ipv6(rnd)]
+
+
+def _g_portform(rnd):
+    r = rnd.random()
+    if r < 0.4:
+        return None
+    p = pick(rnd, [80, 443, 8080, 1, 65535, 0]) if r < 0.7 else rnd.randint(1, 65535)
+    return "0" * pick(rnd, [0, 0, 0, 1]) + str(p)
+
+
+def _g_url(rnd):
+    scheme = pick(rnd, _SCHEMES)
+    kind, host = _g_host(rnd)
+    u = "%s://%s" % (scheme, "[%s]" % host if kind == "ipv6" else host)
+    port = _g_portform(rnd)
     if port is not None:
         u += ":" + port
-    u += path
-    if query is not None:
-        u += "?" + query
-    if frag is not None:
-        u += "#" + frag
+    if rnd.random() < 0.8:
+        u += "/" + "/".join(pick(rnd, _SEGS) if rnd.random() < 0.5 else text(rnd, _pchar, 0, 8) for _ in range(rnd.randint(1, 4)))
+    if rnd.random() < 0.4:
+        u += "?" + (pick(rnd, _QS) if rnd.random() < 0.5 else text(rnd, _pchar + "/?", 0, 10))
+    if rnd.random() < 0.25:
+        u += "#" + text(rnd, _pchar + "/?", 0, 5)
     return u
 
 
-_url = st.tuples(_scheme, _host, _portform, _path, _query, _frag).map(_mkurl)
-
-# values for `host=`: what a caller may assign (str incl. Unicode names and unbracketed IPv6, or IDNA bytes)
-_hostval = st.one_of(
-    _name, _ipv4, _ipv6,
-    st.lists(st.one_of(st.sampled_from(["bücher", "例え", "テスト", "россия"]), st.just("example")), min_size=1, max_size=3).map(".".join),
-    _idn.map(lambda h: h.encode("ascii")),
-    _name.map(lambda h: h.encode("ascii")),
-)
-_edit = st.one_of(
-    st.tuples(st.just("url"), _url),
-    st.tuples(st.just("host"), _hostval), st.tuples(st.just("host"), _hostval),
-    st.tuples(st.just("port"), st.one_of(st.sampled_from([80, 443, 8080, 65535, 1]), st.integers(1, 65535))),
-    st.tuples(st.just("port"), st.sampled_from([80, 443])),
-    st.tuples(st.just("scheme"), st.sampled_from(["http", "https"])),
-)
+def _g_hostval(rnd):
+    """values for `host=`: what a caller may assign (str incl. Unicode names and unbracketed IPv6, or IDNA bytes)"""
+    r = rnd.randrange(6)
+    if r == 0:
+        return _g_name(rnd)
+    if r == 1:
+        return _g_ipv4(rnd)
+    if r == 2:
+        return _g_ipv6(rnd)
+    if r == 3:
+        return ".".join(pick(rnd, ["bücher", "例え", "テスト", "россия", "example"]) for _ in range(rnd.randint(1, 3)))
+    if r == 4:
+        return _g_idn(rnd).encode("ascii")
+    return _g_name(rnd).encode("ascii")
 
 
-def strategy(ctx):
-    return st.fixed_dictionaries({
-        "h2": st.booleans(),
-        "host_header": st.booleans(),
-        "authority": st.booleans(),
-        "url": _url,
-        "edits": st.lists(_edit, max_size=4),
-    })
+def _g_edit(rnd):
+    r = rnd.randrange(6)
+    if r == 0:
+        return ["url", _g_url(rnd)]
+    if r in (1, 2):
+        return ["host", _g_hostval(rnd)]
+    if r == 3:
+        return ["port", pick(rnd, [80, 443, 8080, 65535, 1]) if rnd.random() < 0.5 else rnd.randint(1, 65535)]
+    if r == 4:
+        return ["port", pick(rnd, [80, 443])]
+    return ["scheme", pick(rnd, ["http", "https"])]
+
+
+def build(rnd):
+    return {"h2": rnd.random() < 0.5, "host_header": rnd.random() < 0.5, "authority": rnd.random() < 0.5,
+            "url": _g_url(rnd), "edits": [_g_edit(rnd) for _ in range(small(rnd, 4))]}
+
+
+def run(ctx):
+    runner.fast(ctx, build, check_case, ctx.n(QUICK_N, THOROUGH_N))
 
 
 # ------------------------------------------------------------------ reference: RFC 3986 appendix B + authority
